@@ -270,9 +270,9 @@ func historyCall(r *rng.Rand) string {
 }
 
 func (c07) RunCase(c *core.Ctx) {
-	if c.Case%200 == 199 {
-		runtime.GC() // outside of any episode: bounds memory, empties the pools
-	}
+	// the collector is off only during the episode (it would empty the pools); between cases it bounds the memory
+	debug.SetGCPercent(-1)
+	defer debug.SetGCPercent(100)
 	switch c.Case % 3 {
 	case 0:
 		c07History(c)
